@@ -3,6 +3,8 @@ package symex
 import (
 	"fmt"
 	"go/types"
+	"reflect"
+	"strings"
 
 	"golang.org/x/tools/go/ssa"
 
@@ -18,11 +20,18 @@ type SigInfo struct {
 	Doc Value     // deep copy of the signed *DIDDocument pointee (struct) 
 	Seq *smt.Term
 	ID  int
+	Raw *Blob // when non-nil: the signature is over these bytes (vSignBytes), not over (document, sequence)
 }
 
 // deepEq: structural equality of two values of the same Go type (nil slice ≡
 // empty slice, as in the proto encoding).
 func (e *Exec) deepEq(a, b Value) *smt.Term {
+	if a == nil || b == nil {
+		return smt.BoolConst(a == nil && b == nil)
+	}
+	if reflect.TypeOf(a) != reflect.TypeOf(b) {
+		return smt.False // different kinds of value never encode equally
+	}
 	switch x := a.(type) {
 	case *smt.Term:
 		return smt.Eq(x, b.(*smt.Term))
@@ -31,7 +40,7 @@ func (e *Exec) deepEq(a, b Value) *smt.Term {
 	case Bytes:
 		y := b.(Bytes)
 		if x.Blob != nil && y.Blob != nil {
-			if x.Blob.LenPfx != y.Blob.LenPfx {
+			if x.Blob.LenPfx != y.Blob.LenPfx || x.Blob.Kind != y.Blob.Kind {
 				return smt.False
 			}
 			return e.deepEq(x.Blob.Val, y.Blob.Val)
@@ -65,6 +74,9 @@ func (e *Exec) deepEq(a, b Value) *smt.Term {
 		return smt.And(cs...)
 	case *Struct:
 		y := b.(*Struct)
+		if len(x.Fields) != len(y.Fields) {
+			return smt.False
+		}
 		var cs []*smt.Term
 		for i := range x.Fields {
 			cs = append(cs, e.deepEq(x.Fields[i], y.Fields[i]))
@@ -152,6 +164,17 @@ func init() {
 		if msg.Blob == nil {
 			panic(engineErr("VerifySignature over bytes that are not a modelled blob"))
 		}
+		keyEq0 := e.viewEq(bytesView(key), view{FnAtom{sig.Sig.Pub}, c0, strlenOf(sig.Sig.Pub)})
+		if sig.Sig.Raw != nil {
+			// a signature over raw bytes (e.g. the JSON form of a document)
+			if sig.Sig.Raw.Kind != msg.Blob.Kind {
+				return smt.False
+			}
+			return smt.And(keyEq0, e.deepEq(msg.Blob.Val, sig.Sig.Raw.Val))
+		}
+		if msg.Blob.Kind != "" {
+			return smt.False // (document, sequence) signatures never verify another encoding
+		}
 		dws, ok := msg.Blob.Val.(*Struct)
 		if !ok || len(dws.Fields) < 2 {
 			panic(engineErr("VerifySignature: unexpected sign-bytes shape"))
@@ -173,7 +196,7 @@ func init() {
 		site := e.siteKey(e.mustConstString(args[0], "key pair site"))
 		p := smt.Var("key:"+site, smt.StrS)
 		e.assume(smt.Eq(strlenOf(p), c64(33)))
-		e.registerAtom(p)
+		e.registerAtomEager(p)
 		s := e.b58enc(p)
 		e.path.nextObj++
 		id := e.path.nextObj
@@ -198,6 +221,29 @@ func init() {
 		e.keyPairs = append(e.keyPairs, p)
 		return &Struct{Fields: fs}
 	}
+	// vSignBytes(k vKey, msg []byte) []byte: a genuine signature over arbitrary modelled bytes
+	extraIntrinsics["vSignBytes"] = func(e *Exec, fn *ssa.Function, args []Value) Value {
+		k := args[0].(*Struct)
+		var pub *smt.Term
+		for _, f := range k.Fields {
+			if b, ok := f.(Bytes); ok {
+				if t, ok := bytesView(b).wholeAtom(); ok {
+					pub = t
+				}
+			}
+		}
+		m := args[1].(Bytes)
+		if pub == nil || m.Blob == nil {
+			panic(engineErr("vSignBytes needs a key pair and modelled (blob) bytes"))
+		}
+		e.path.nextObj++
+		si := &SigInfo{Pub: pub, Raw: m.Blob, ID: e.path.nextObj}
+		t := e.fresh("sig", smt.StrS)
+		e.assume(smt.And(smt.ULe(c64(64), strlenOf(t)), smt.ULe(strlenOf(t), c64(65))))
+		buf := e.newBuf(FnAtom{t}, strlenOf(t))
+		return Bytes{Buf: buf, Off: c0, Len: strlenOf(t), Cap: strlenOf(t), Sig: si}
+	}
+	stubs["github.com/cosmos/cosmos-sdk/types.MustSortJSON"] = func(e *Exec, fn *ssa.Function, args []Value) Value { return args[0] }
 	// vSign(k vKey, doc *DIDDocument, seq uint64) []byte
 	extraIntrinsics["vSign"] = func(e *Exec, fn *ssa.Function, args []Value) Value {
 		k := args[0].(*Struct)
@@ -289,5 +335,140 @@ func init() {
 			}
 		}
 		return &Struct{Fields: fs}
+	}
+}
+
+// ---------------- amino JSON model with custom marshalers (C14) ----------------
+
+// jsonValue builds the model of the JSON encoding of v (of Go type t): a value
+// that is an injective function of what the encoder would emit. Types with a
+// MarshalJSON method defined in the repository are encoded by *executing* that
+// method symbolically; everything else is encoded structurally.
+func (e *Exec) jsonValue(v Value, t types.Type, depth int) Value {
+	if depth > 8 {
+		return v
+	}
+	if m := e.repoMarshalJSON(t); m != nil {
+		recv := v
+		if _, isPtrRecv := m.Signature.Recv().Type().(*types.Pointer); isPtrRecv {
+			if _, isPtr := t.(*types.Pointer); !isPtr {
+				o := e.newObj(t, v)
+				recv = Ptr{Obj: o}
+			}
+		} else if pt, isPtr := t.(*types.Pointer); isPtr {
+			p := v.(Ptr)
+			if p.Obj == nil {
+				return v
+			}
+			_ = pt
+			recv = e.load(p)
+		}
+		res := e.callFn(m, []Value{recv}, nil, nil).(Tuple)
+		return res[0]
+	}
+	switch u := t.Underlying().(type) {
+	case *types.Pointer:
+		p := v.(Ptr)
+		if p.Obj == nil {
+			return v
+		}
+		inner := e.jsonValue(getPath(p.Obj.Val, p.Path), u.Elem(), depth+1)
+		return Ptr{Obj: e.newObj(u.Elem(), inner)}
+	case *types.Struct:
+		sv, ok := v.(*Struct)
+		if !ok {
+			return v
+		}
+		fs := make([]Value, len(sv.Fields))
+		for i := range fs {
+			fs[i] = e.jsonValue(sv.Fields[i], u.Field(i).Type(), depth+1)
+		}
+		return &Struct{Fields: fs}
+	case *types.Slice:
+		if isByte(u.Elem()) {
+			return v
+		}
+		sl, ok := v.(Slice)
+		if !ok || sl.Nil || sl.Len == 0 {
+			return v
+		}
+		es := make([]Value, sl.Len)
+		for i := 0; i < sl.Len; i++ {
+			es[i] = e.jsonValue(sl.Arr.Val.(*Array).Elems[sl.Off+i], u.Elem(), depth+1)
+		}
+		arr := e.newObj(nil, &Array{Elems: es})
+		return Slice{Arr: arr, Off: 0, Len: sl.Len, Cap: sl.Len}
+	}
+	return v
+}
+
+// repoMarshalJSON returns the MarshalJSON method of t if it is hand-written repository code.
+func (e *Exec) repoMarshalJSON(t types.Type) *ssa.Function {
+	for _, tt := range []types.Type{t, types.NewPointer(t)} {
+		if _, isPtrPtr := t.(*types.Pointer); isPtrPtr && tt != t {
+			continue
+		}
+		ms := e.P.Prog.MethodSets.MethodSet(tt)
+		for i := 0; i < ms.Len(); i++ {
+			if ms.At(i).Obj().Name() != "MarshalJSON" {
+				continue
+			}
+			fn := e.P.Prog.MethodValue(ms.At(i))
+			if fn == nil {
+				continue
+			}
+			o := fn
+			if fn.Synthetic != "" {
+				// wrapper: find the declared method
+				if f2, ok := ms.At(i).Obj().(*types.Func); ok {
+					if d := e.P.Prog.FuncValue(f2); d != nil {
+						o = d
+					}
+				}
+			}
+			file := ""
+			if f := e.P.Prog.Fset.File(o.Pos()); f != nil {
+				file = f.Name()
+			}
+			if o.Pkg != nil && e.shouldExecute(o) && !strings.HasSuffix(file, ".pb.go") {
+				return o
+			}
+		}
+	}
+	return nil
+}
+
+func (e *Exec) makeJSONBlob(v Value, t types.Type) Bytes {
+	val := e.deepCopy(v, map[*Obj]*Obj{})
+	if p, ok := val.(Ptr); ok && p.Obj != nil {
+		val = getPath(p.Obj.Val, p.Path)
+		if pt, ok := t.(*types.Pointer); ok {
+			t = pt.Elem()
+		}
+	}
+	val = e.jsonValue(val, t, 0)
+	e.path.blobID++
+	L := e.fresh("jsonlen", smt.BV64)
+	e.assume(smt.And(smt.ULe(c64(2), L), smt.ULe(L, smt.Const(1<<24, 64))))
+	bl := &Blob{Typ: t, Val: val, Len: L, ID: e.path.blobID, Kind: "json"}
+	buf := e.newBuf(FnAtom{e.blobAtom(bl)}, L)
+	return Bytes{Buf: buf, Off: c0, Len: L, Cap: L, Blob: bl}
+}
+
+func init() {
+	stubs["(*github.com/cosmos/cosmos-sdk/codec.AminoCodec).MustMarshalJSON"] = func(e *Exec, fn *ssa.Function, args []Value) Value {
+		iv := args[1].(Iface)
+		if iv.Typ == nil {
+			e.goPanicf("MustMarshalJSON(nil)")
+		}
+		e.Notes["stub amino MustMarshalJSON / MustSortJSON / encoding/json.Marshal: the JSON text is an injective function of the encoded value, where fields whose type has a hand-written MarshalJSON are encoded by executing that method; never equal to the protobuf bytes of the same message"] = true
+		return e.makeJSONBlob(iv.Val, iv.Typ)
+	}
+	stubs["encoding/json.Marshal"] = func(e *Exec, fn *ssa.Function, args []Value) Value {
+		iv := args[0].(Iface)
+		if iv.Typ == nil {
+			return Tuple{e.makeJSONBlob(constStr("null"), types.Typ[types.String]), nilErr()}
+		}
+		return Tuple{e.makeJSONBlob(iv.Val, iv.Typ), nilErr()}
 	}
 }
